@@ -20,6 +20,7 @@ class Gram:
         self.labctr = 0
         self.tags = set()   # features: "state","lr","throw","blocks", ...
         self.maydiverge = False
+        self.labpool, self.labrng = None, None
         self.idents = None  # custom rule identifiers (C04); default G<gi>_R<i>
         self.recv = "c"     # receiver name used inside the code blocks
 
@@ -39,6 +40,8 @@ class Gram:
 
     def newlab(self):
         self.labctr += 1
+        if self.labpool and self.labrng.random() < 0.5:   # the same name in different scopes (shadowing)
+            return self.labrng.choice(self.labpool)
         return "l%d" % self.labctr
 
     def lit(self, runes, ic=False):
@@ -115,6 +118,9 @@ class Gram:
             elif k in ("state", "andcode", "notcode"):
                 n["args"] = list(stack[-1])
             elif k == "label":
+                if n["lab"] in stack[-1]:          # labels of one scope are distinct (precondition of C04); other scopes may reuse a name
+                    self.labctr += 1
+                    n["lab"] = "u%d" % self.labctr
                 stack[-1].append(n["lab"])
                 stack.append([])
                 walk(n["kids"][0], stack)
